@@ -37,6 +37,9 @@ structure Obj where
   mod : Bool
   del : Bool
   app : Bool           -- the application holds a reference
+  touched : Bool       -- state.modified: in WeakInstanceDict._modified, `_strong_obj` set.  Stays up
+                       -- when the history is taken away again (partial expire) or never came to be
+                       -- (change refused outside a transaction with autobegin=False)
 deriving DecidableEq, Repr
 
 abbrev DB := Nat → Option Int
@@ -44,6 +47,7 @@ abbrev DB := Nat → Option Int
 structure Cfg where
   n : Nat
   eoc : Bool
+  autobegin : Bool     -- Session(autobegin=…)
 deriving Repr
 
 structure St where
@@ -51,10 +55,11 @@ structure St where
   saved : Option DB
   objs : Nat → Option Obj            -- identity map
   new : Nat → Option (Int × Bool)    -- session.new: value, application reference
+  txn : Bool                         -- a transaction is open (only consulted with autobegin=False)
   fresh : Nat → Bool                 -- SessionTransaction._new (a WeakKeyDictionary): the instance
                                      -- at k was inserted by this transaction and is still alive
 
-def St.init : St := ⟨fun _ => none, none, fun _ => none, fun _ => none, fun _ => false⟩
+def St.init : St := ⟨fun _ => none, none, fun _ => none, fun _ => none, false, fun _ => false⟩
 
 inductive Op
   | get (k : Nat)
@@ -63,6 +68,9 @@ inductive Op
   | add (k : Nat) (v : Int)
   | drop (k : Nat)
   | expire (k : Nat)
+  | expireVal (k : Nat)      -- session.expire(obj, ["val"]): exactly the modified attribute
+  | expireId (k : Nat)       -- session.expire(obj, ["id"]): an attribute without history
+  | begin                    -- session.begin()
   | flush
   | commit
   | rollback
@@ -72,13 +80,14 @@ deriving Repr
 inductive Out
   | skip
   | done
+  | raised                   -- InvalidRequestError: change outside a transaction, autobegin=False
   | val (v : Option Int)     -- get: value | None
   | num (n : Nat)
   | integrity        -- a flush failed: IntegrityError / StaleDataError / ObjectDeletedError
 deriving DecidableEq, Repr
 
 /-- an object the Session itself keeps alive -/
-def strong (o : Obj) : Bool := o.mod || o.del
+def strong (o : Obj) : Bool := o.mod || o.touched || o.del
 
 /-- garbage collection: objects neither the application nor the Session holds go away -/
 def collect (st : St) : St :=
@@ -92,6 +101,10 @@ def collect (st : St) : St :=
 
 def anyBelow (n : Nat) (f : Nat → Bool) : Bool := (List.range n).any f
 
+def touchedOpt : Option Obj → Bool
+  | some o => o.touched
+  | none => false
+
 def strongOpt : Option Obj → Bool
   | some o => strong o
   | none => false
@@ -101,7 +114,7 @@ def hasWork (c : Cfg) (st : St) : Bool :=
 
 def dupAt (st : St) (k : Nat) : Bool := (st.new k).isSome && (st.db k).isSome
 
-def expiredObj (o : Obj) : Obj := { o with val := none, mod := false, del := false }
+def expiredObj (o : Obj) : Obj := { o with val := none, mod := false, del := false, touched := false }
 
 /-- ROLLBACK: pending objects are expunged, and so are the instances this transaction
     inserted — those it still knows (`fresh`).  Every other instance is expired and stays:
@@ -112,7 +125,7 @@ def rolledBack (st : St) : St :=
     objs := fun k => match st.objs k with
                      | some o => if st.fresh k then none else some (expiredObj o)
                      | none => none,
-    new := fun _ => none, fresh := fun _ => false }
+    new := fun _ => none, txn := false, fresh := fun _ => false }
 
 def flushRow (nw : Option (Int × Bool)) (o : Option Obj) (row : Option Int) : Option Int :=
   match nw, o with
@@ -124,8 +137,8 @@ def flushRow (nw : Option (Int × Bool)) (o : Option Obj) (row : Option Int) : O
 
 def flushObj (nw : Option (Int × Bool)) (o : Option Obj) : Option Obj :=
   match nw, o with
-  | some (v, a), _ => some ⟨some v, false, false, a⟩
-  | none, some o => if o.del then none else some { o with mod := false }
+  | some (v, a), _ => some ⟨some v, false, false, a, false⟩
+  | none, some o => if o.del then none else some { o with mod := false, touched := false }
   | none, none => none
 
 /-- UPDATE / DELETE of an instance whose row does not exist (a phantom): StaleDataError or
@@ -143,6 +156,7 @@ def doFlush (c : Cfg) (st : St) : Option St :=
                        | none => some st.db,
               objs := fun k => if k < c.n then flushObj (st.new k) (st.objs k) else st.objs k,
               new := fun k => if k < c.n then none else st.new k,
+              txn := st.txn,
               fresh := fun k => st.fresh k || (decide (k < c.n) && (st.new k).isSome) }
 
 /-! ### operations on one primary key: (pending entry, identity-map entry, row) ↦ new
@@ -165,7 +179,7 @@ def getSlot (nw : Option (Int × Bool)) (o : Option Obj) (row : Option Int) : Sl
           | none => ((nw, none), .val none)
     | none =>
       match row with
-      | some v => ((nw, some ⟨some v, false, false, true⟩), .val (some v))
+      | some v => ((nw, some ⟨some v, false, false, true, false⟩), .val (some v))
       | none => ((nw, none), .val none)
 
 def setSlot (v : Int) (nw : Option (Int × Bool)) (o : Option Obj) : Slot × Out :=
@@ -174,7 +188,7 @@ def setSlot (v : Int) (nw : Option (Int × Bool)) (o : Option Obj) : Slot × Out
   | none =>
     match o with
     | some ob =>
-      if ob.app && !ob.del then ((nw, some { ob with val := some v, mod := true }), .done)
+      if ob.app && !ob.del then ((nw, some { ob with val := some v, mod := true, touched := true }), .done)
       else ((nw, o), .skip)
     | none => ((nw, o), .skip)
 
@@ -202,21 +216,61 @@ def dropSlot (nw : Option (Int × Bool)) (o : Option Obj) : Slot × Out :=
 def expSlot (nw : Option (Int × Bool)) (o : Option Obj) : Slot × Out :=
   match nw, o with
   | none, some ob =>
+    if ob.app && !ob.del then ((nw, some { ob with val := none, mod := false, touched := false }), .done) else ((nw, o), .skip)
+  | _, _ => ((nw, o), .skip)
+
+/-- `InstanceState._expire_attributes` for the one attribute that carries history: value and
+    history go, `state.modified` and the strong reference stay -/
+def expValSlot (nw : Option (Int × Bool)) (o : Option Obj) : Slot × Out :=
+  match nw, o with
+  | none, some ob =>
     if ob.app && !ob.del then ((nw, some { ob with val := none, mod := false }), .done) else ((nw, o), .skip)
+  | _, _ => ((nw, o), .skip)
+
+/-- partial expire of an attribute without history: nothing the model tracks changes -/
+def expIdSlot (nw : Option (Int × Bool)) (o : Option Obj) : Slot × Out :=
+  match nw, o with
+  | none, some ob => if ob.app && !ob.del then ((nw, o), .done) else ((nw, o), .skip)
+  | _, _ => ((nw, o), .skip)
+
+/-- attribute set outside a transaction with autobegin=False: `_modified_event` has put the
+    state into `_modified` and taken the strong reference when the inlined autobegin raises;
+    the value is not assigned -/
+def setDeadSlot (nw : Option (Int × Bool)) (o : Option Obj) : Slot × Out :=
+  match nw, o with
+  | none, some ob =>
+    if ob.app && !ob.del then ((nw, some { ob with touched := true }), .raised) else ((nw, o), .skip)
   | _, _ => ((nw, o), .skip)
 
 def putSlot (st : St) (k : Nat) (r : Slot × Out) : St × Out :=
   ({ st with new := fun j => if j = k then r.1.1 else st.new j,
              objs := fun j => if j = k then r.1.2 else st.objs j }, r.2)
 
-/-- the reference semantics: nothing is ever collected -/
-def step (c : Cfg) (st : St) : Op → St × Out
+/-- autobegin=False and no transaction: the application can still touch its objects -/
+def stepDead (c : Cfg) (st : St) : Op → St × Out
+  | .set k v =>
+    -- `_modified_event` runs the inlined autobegin check only `if not has_modified`, i.e.
+    -- when the identity map's `_modified` set was empty: once one (refused) change has left
+    -- a state in there, further changes are accepted without any transaction
+    if anyBelow c.n (fun j => touchedOpt (st.objs j))
+    then putSlot st k (setSlot v (st.new k) (st.objs k))
+    else putSlot st k (setDeadSlot (st.new k) (st.objs k))
+  | .drop k => putSlot st k (dropSlot (st.new k) (st.objs k))
+  | .len => (st, .num ((List.range c.n).filter (fun k => (st.objs k).isSome)).length)
+  | .begin => ({ st with txn := true }, .done)
+  | _ => (st, .skip)
+
+/-- inside a transaction (or with autobegin, which opens one on demand) -/
+def stepLive (c : Cfg) (st : St) : Op → St × Out
   | .get k => putSlot st k (getSlot (st.new k) (st.objs k) (st.db k))
   | .set k v => putSlot st k (setSlot v (st.new k) (st.objs k))
   | .del k => putSlot st k (delSlot (st.new k) (st.objs k))
   | .add k v => putSlot st k (addSlot v (st.new k) (st.objs k))
   | .drop k => putSlot st k (dropSlot (st.new k) (st.objs k))
   | .expire k => putSlot st k (expSlot (st.new k) (st.objs k))
+  | .expireVal k => putSlot st k (expValSlot (st.new k) (st.objs k))
+  | .expireId k => putSlot st k (expIdSlot (st.new k) (st.objs k))
+  | .begin => (st, .skip)
   | .flush =>
     match doFlush c st with
     | none => (rolledBack st, .integrity)
@@ -225,10 +279,17 @@ def step (c : Cfg) (st : St) : Op → St × Out
     match doFlush c st with
     | none => (rolledBack st, .integrity)
     | some st1 =>
-      ({ st1 with saved := none, fresh := fun _ => false,
+      ({ st1 with saved := none, txn := false, fresh := fun _ => false,
                   objs := if c.eoc then (fun k => (st1.objs k).map (fun o => { o with val := none, mod := false })) else st1.objs }, .done)
   | .rollback => (rolledBack st, .done)
   | .len => (st, .num ((List.range c.n).filter (fun k => (st.objs k).isSome)).length)
+
+/-- operations need a transaction; with autobegin (the default) there always is one -/
+def live (c : Cfg) (st : St) : Bool := c.autobegin || st.txn
+
+/-- the reference semantics: nothing is ever collected -/
+def step (c : Cfg) (st : St) (op : Op) : St × Out :=
+  if live c st then stepLive c st op else stepDead c st op
 
 /-- CPython: collection after every operation -/
 def stepGc (c : Cfg) (st : St) (op : Op) : St × Out :=
@@ -252,7 +313,7 @@ def outsGc (c : Cfg) (st : St) : List Op → List Out
   | o :: os => (stepGc c st o).2 :: outsGc c (stepGc c st o).1 os
 
 def opOk (c : Cfg) : Op → Bool
-  | .get k | .set k _ | .del k | .add k _ | .drop k | .expire k => k < c.n
-  | .flush | .commit | .rollback | .len => true
+  | .get k | .set k _ | .del k | .add k _ | .drop k | .expire k | .expireVal k | .expireId k => k < c.n
+  | .flush | .commit | .rollback | .len | .begin => true
 
 end SaVerif.Weakref
